@@ -201,7 +201,7 @@ def gen_random(rng, index):
     return {"property": PROP, "kind": "random", "index": index,
             "mode": mode, "zones": zones, "cur": rng.randrange(nzones),
             "isdst": rng.choice([0, 1]), "start_us": start_us,
-            "with_gmtoff": rng.random() < 0.5, "steps": steps}
+            "steps": steps}
 
 
 def gen_grid(rng, index):
@@ -236,7 +236,6 @@ def gen_grid(rng, index):
                                         "basic", 0]})
         steps.append({"k": "pert", "act": ["tzset", 0]})
     return {"property": PROP, "kind": "grid", "index": index,
-            "with_gmtoff": index % 2 == 0,
             "mode": "gregorian", "zones": zones, "cur": 0, "isdst": 0,
             "start_us": (946684800 + index * 86400) * 10 ** 6, "steps": steps}
 
